@@ -373,9 +373,11 @@ where
                             }))),
                         }))),
                     ];
+                    // (of a key written twice JavaScript keeps the last entry)
                     if let Some((_, default)) = defaults
                         .iter()
                         .flatten()
+                        .rev()
                         .find(|(name, _)| is_same_prop_name(name, &prop_name))
                     {
                         let default = match default {
